@@ -200,9 +200,19 @@ pub fn run(ctx: &Ctx) -> CheckResult {
         for c in &sel {
             *kinds.entry(c.kind).or_insert(0) += 1;
         }
+        // texture headers only matter to the commands that load image data (extract, compile -i):
+        // every fault in a THTX header goes to those two, and quick takes a denser slice of them
+        let thtx = corrupt::texture_header_offsets(&t.bytes);
+        let in_thtx = |off: usize| thtx.get(off).copied().unwrap_or(false);
+        if t.cmd == "truanm" && thtx.iter().any(|b| *b) {
+            sel.retain(|c| !in_thtx(c.off));
+            let tex: Vec<Corruption> = all.iter().filter(|c| in_thtx(c.off)).cloned().collect();
+            let dense = if quick { 3 } else { 1 };
+            sel.extend(corrupt::select_by(&tex, &|_| true, dense, 1, seed));
+        }
         // command rotation: the j-th selected fault of a target goes to command (j + rotation)
         let rot = (seed % 7) as usize;
-        let with_cmd: Vec<(usize, Corruption)> = sel.into_iter().enumerate().map(|(j, c)| (j + rot, c)).collect();
+        let with_cmd: Vec<(usize, Corruption)> = sel.into_iter().enumerate().map(|(j, c)| if t.cmd == "truanm" && in_thtx(c.off) { (5 + (j % 2), c) } else { (j + rot, c) }).collect();
         for ch in with_cmd.chunks(48) {
             work.push((ti, ch.to_vec()));
         }
